@@ -93,6 +93,8 @@ POOL = [
     ("fa2", "FA", 'w.reg(lx.get_forall(lx.get_product(impl::Warehouse<ipr::Type>{}), lx.char_type()))', {"ty": 22}),
     ("nc2", "NAMED", 'reg_raw(static_cast<const ipr::Capture_specification::Named*>(&caps.binding_capture(w.as<ipr::Identifier>(idB), w.as<ipr::Expr>(e2), ipr::Binding_mode::Reference)))', {}),
     ("pl1", "PL", 'w.reg(static_cast<const ipr::Mapping&>(*pool_mapping).parameters())', {}),
+    ("opplus", "N", 'w.reg(lx.get_operator(u8"+"))', {}),
+    ("vop", "D V", 'w.reg(*w.unit.global_scope()->make_var(w.as<ipr::Name>(opplus), lx.char_type()))', {"ty": 3, "nm": "opplus"}),
     ("fd1", "FD", 'w.reg(*w.unit.global_region()->declare_fun(w.as<ipr::Name>(idB), w.as<ipr::Function>(fn2)))', {"nm": "idB"}),
 ]
 POOL_ID = {name: NCONST + 1 + k for k, (name, _, _, _) in enumerate(POOL)}
@@ -310,7 +312,7 @@ F("make_elaborated_attribute", "ipr::ElaboratedAttribute", "-", "E", "attrs.make
 F("default_capture", "ipr::Capture_specification::Default", "-", "BM", "caps.default_capture($1)", "mode=1", "-")
 F("implicit_object_capture", "ipr::Capture_specification::Implicit_object", "-", "BM", "caps.implicit_object_capture($1)", "how=1", "-")
 F("enclosing_local_capture", "ipr::Capture_specification::Enclosing_local", "-", "D BM", "caps.enclosing_local_capture($1, $2)",
-  "declaration=1 mode=2 name=nm:1", "-")
+  "declaration=1 mode=2 name=idnm:1", "-")
 F("binding_capture", "ipr::Capture_specification::Binding", "-", "I E BM", "caps.binding_capture($1, $2, $3)", "name=1 initializer=2 mode=3", "-")
 F("expansion_capture", "ipr::Capture_specification::Expansion", "-", "NAMED", "caps.expansion_capture(*$1)", "what=1", "-")
 # (Lexicon::make_token and expr_factory::make_annotation are declared but not defined by the library: tokens are built
@@ -332,6 +334,8 @@ def parse_src(src):
         return '[k |-> "tyof", v |-> %s, l |-> ""]' % src[3:]
     if src.startswith("nm:"):
         return '[k |-> "nameof", v |-> %s, l |-> ""]' % src[3:]
+    if src.startswith("idnm:"):          # the name of the operand, where an identifier is required: refused if it is not one
+        return '[k |-> "identof", v |-> %s, l |-> ""]' % src[5:]
     if src.startswith("el:"):
         return '[k |-> "elems", v |-> %s, l |-> ""]' % src[3:]
     if src.startswith("@"):
@@ -395,6 +399,7 @@ def gen_tla():
     nm = {POOL_ID[n]: POOL_ID[f["nm"]] for n, _, _, f in POOL if "nm" in f}
     out.append("PoolNameOf == [i \\in {%s} |-> CASE %s]" % (
         ", ".join(map(str, sorted(nm))), " [] ".join("i = %d -> %d" % (k, v) for k, v in sorted(nm.items()))))
+    out.append("PoolIdentifiers == {%s}" % ", ".join(str(POOL_ID[n]) for n, so, _, _ in POOL if "I" in so.split()))
     el = {POOL_ID[n]: [POOL_ID[x] for x in f["el"]] for n, _, _, f in POOL if "el" in f}
     out.append("PoolElemsOf == [i \\in {%s} |-> CASE %s]" % (
         ", ".join(map(str, sorted(el))), " [] ".join("i = %d -> <<%s>>" % (k, ", ".join(map(str, v))) for k, v in sorted(el.items()))))
